@@ -205,6 +205,11 @@ class SuperSpeedStreamInEndpoint(Elaboratable):
         # to send an ERDY packet to have it resume polling.
         erdy_required = Signal()
 
+        # Stores whether the handshake generator has taken up our pending ERDY request. The generator's ``done``
+        # reports completion of whatever packet it's working on -- which can still be an NRDY we've requested just
+        # before -- so a ``done`` only completes our ERDY once the generator has been ``ready`` to accept it.
+        erdy_accepted = Signal()
+
         # Shortcut for when we need to deal with an in token.
         # Note that, for USB3, an IN token is an ACK that contains a non-zero ``number_of_packets``.
         is_to_us          = (handshakes_in.endpoint_number == self._endpoint_number)
@@ -313,13 +318,21 @@ class SuperSpeedStreamInEndpoint(Elaboratable):
                 # Send our ERDY token...
                 m.d.comb += handshakes_out.send_erdy.eq(1)
 
+                # ... which the generator takes up in a cycle in which it's ready ...
+                with m.If(handshakes_out.ready):
+                    m.d.ss += erdy_accepted.eq(1)
+
                 # ... and once that send is complete, move on to waiting for an IN token.
-                with m.If(handshakes_out.done):
-                    m.d.ss += erdy_required.eq(0)
+                with m.If(handshakes_out.done & erdy_accepted):
+                    m.d.ss += [
+                        erdy_required  .eq(0),
+                        erdy_accepted  .eq(0)
+                    ]
                     m.next = "WAIT_TO_SEND"
 
                 # If the host polls us anyway, answer it.
                 with m.If(in_token_received):
+                    m.d.ss += erdy_accepted.eq(0)
                     respond_to_in_token()
 
 
